@@ -2490,7 +2490,11 @@ def convert_mean_to_depthwise_conv(op, arch, nng):
         shift = round_down_log2(num_elements_in_axis)
         shift = min(shift, 32)
         shift = min(shift, 31 + output_shift)
-        output_multiplier = (output_multiplier << shift) // int(num_elements_in_axis)
+        if shift >= 0:
+            output_multiplier = (output_multiplier << shift) // int(num_elements_in_axis)
+        else:
+            # Rescale below 2^-32, output_shift is already less than -31: shift the multiplier right instead
+            output_multiplier = (output_multiplier >> -shift) // int(num_elements_in_axis)
         output_shift = output_shift - shift
 
         # Convert to vela representation shift
